@@ -768,6 +768,10 @@ class ScipyOptimizeDriver(Driver):
         if meta['equals'] is not None:
             return grad[grad_idx, :]
 
+        # Constraints that are given to scipy together with their bounds (see _con_val_func)
+        if _use_new_style and self.options['optimizer'] in _supports_new_style:
+            return grad[grad_idx, :]
+
         # Note, scipy defines constraints to be satisfied when positive,
         # which is the opposite of OpenMDAO.
         lower = meta['lower']
